@@ -11,7 +11,9 @@ import Srctools.Model.Tok
 * every `while True:` loop of `_get_token`, `_handle_comment`, `_handle_string` is one function
   here, taking fuel because the cursor is not structurally decreasing; running out of fuel is the
   error `outOfFuel` (never happens with fuel `> remaining characters`: `C03_total`).
-* `calls` counts the invocations of `_next_char` (ghost field, used only by `C03_steps`).
+* `calls` counts the invocations of `_next_char` (ghost field: it influences nothing; `runCalls`
+  reports it, `C03_steps` bounds it by `2·length + 1`, and the harness compares it with the
+  implementation). Error results carry the cursor at the `raise` for the same purpose.
 
 The abstract model `Tok` (Model/Tok.lean) is the same tokenizer over the remaining character list;
 `Srctools/Proofs/C03*.lean` proves `TokC` refines it through `Src.view`.
